@@ -5,9 +5,20 @@ MODULES = ["C06", "C01", "C05", "C02", "C07", "C08", "C17", "C09", "C18", "C03",
 
 
 def register(ix):
+    import os
+    import sys
+    import traceback
     from pyvc import speclib
     speclib.register(ix)
     from pyvc import lib
     lib.register(ix)
+    ix.broken = {}
     for m in MODULES:
-        importlib.import_module("contracts." + m).register(ix)
+        try:
+            importlib.import_module("contracts." + m).register(ix)
+        except Exception:
+            # a contract module that does not load must not take the other properties down with it; the check of every
+            # property reports it as a checker failure unless VERIF_SKIP_BROKEN=1 (development)
+            ix.broken[m] = traceback.format_exc()[-600:]
+            if not os.environ.get("VERIF_SKIP_BROKEN"):
+                sys.stderr.write("contract module %s failed to load:\n%s\n" % (m, ix.broken[m]))
